@@ -53,6 +53,8 @@ PLAN = {
 }
 CHUNK = 4
 R2_MOD = 8
+# cheap ops whose templates are worth repeating: per-argument state that a failing neighbour call can leave half built
+K5_EXTRA = {"tomo.CircuitResult", "lookup.parse_circuit", "lookup.MUBInfo", "stab.new"}
 MINIMISE_WALL_S = 75     # per violation class; a longer replay file is still a valid replay file
 
 PROJ_KEYS = ("id", "kind", "op", "pre", "out", "outkind", "faulted", "tag", "reads", "applied", "changed",
@@ -227,7 +229,7 @@ class Check:
                                                                       (6 if rep == 2 else 2 + (k + rep + self.seed) % 5))
                 # ops with a documented in-place effect get three templates per repetition: they are the ones that
                 # must invalidate whatever an object memoises about itself
-                for extra in range(3 if OPS[opname].inplace else 1):
+                for extra in range(3 if (OPS[opname].inplace or opname in K5_EXTRA) else 1):
                     out.append({"mode": "generate", "batch": "K5", "i": i, "tier": self.tier, "op": opname,
                                 "n": n if extra == 0 else 2 + (k + rep + extra + self.seed) % 5,
                                 "seed": run_seed(self.seed, self.tier, "K5", i), "keep": i < 4, "want_events": True})
